@@ -3,7 +3,7 @@
 #
 # Every case is run on its own scratch copy of /repo's HEAD (`git archive`; /repo
 # itself is never touched) and its own scratch copy of the Lean project; the
-# extractor (built from /tmp/P35/harness) is run on the copy and
+# extractor (built from /verif/harness) is run on the copy and
 # CffVerif.Tie.Facts is built against the regenerated Extracted/Facts.lean.
 # All scratch copies are deleted at the end.
 #
@@ -19,12 +19,13 @@
 #        JOBS=n  cases run in parallel (default 8)
 set -u
 export GOFLAGS=-mod=mod GOPROXY=off GOSUMDB=off GOTOOLCHAIN=local
-HERE=/tmp/P35
+HERE=/verif
+SCRATCH=${SCRATCH:-/tmp}
 JOBS=${JOBS:-8}
-BASELINE="$HERE/baseline_kills.txt"
+BASELINE="$HERE/tools/tie_handmade/baseline_kills.txt"
 what="${*:-harmless seeded handmade}"
 
-W="$(mktemp -d "$HERE/selftest.XXXXXX")"
+W="$(mktemp -d "$SCRATCH/tie-selftest.XXXXXX")"
 trap 'rm -rf "$W"' EXIT
 export W HERE
 
